@@ -44,6 +44,7 @@ type pathCtx struct {
 	w    *World
 	fi   *FuncInfo
 	seen map[types.Object]bool
+	keepContext bool // do not drop variables of run-constant "context" types
 }
 
 // pathsOf returns the access paths an expression depends on.
@@ -64,7 +65,7 @@ func (pc *pathCtx) pathsOf(e ast.Expr, depth int, out map[string]bool) {
 		if obj.Pkg() != nil && obj.Parent() == obj.Pkg().Scope() {
 			return
 		}
-		if isContextType(obj.Type()) {
+		if isContextType(obj.Type()) && !pc.keepContext {
 			return
 		}
 		// range variable: element of the ranged expression
